@@ -600,3 +600,34 @@ func indexBinSearch(db *Database, pl cellPayload, key Key) (bool, error) {
 
 	return Search(key, rec), nil
 }
+
+// distinctChildren is false for an interior page that names a child page more
+// than once. No b-tree has such a page, and walking one costs (number of
+// cells) times the subtree - a few such pages on top of each other, which
+// is not a cycle and doesn't go deeper than any tree, keep a scan busy for
+// ever.
+func distinctChildren(page interface{}) bool {
+	var kids []int
+	switch p := page.(type) {
+	case *tableInterior:
+		for _, c := range p.cells {
+			kids = append(kids, c.left)
+		}
+		kids = append(kids, p.rightmost)
+	case *indexInterior:
+		for _, c := range p.cells {
+			kids = append(kids, c.left)
+		}
+		kids = append(kids, p.rightmost)
+	default:
+		return true
+	}
+	seen := make(map[int]struct{}, len(kids))
+	for _, k := range kids {
+		if _, ok := seen[k]; ok {
+			return false
+		}
+		seen[k] = struct{}{}
+	}
+	return true
+}
